@@ -278,7 +278,10 @@ package raft
 //@ ufun st_last(s Storage) uint64
 //@ ufun st_term(s Storage, i uint64) uint64
 //@ ufun st_ent(s Storage, i uint64) *pb.Entry
+//@ ufun st_snapindex(s Storage) uint64
+//@ ufun st_snapterm(s Storage) uint64
 //@ pred opaque wf_storage(s Storage) := !isnil(s) && st_first(s) >= 1 && st_last(s) + 1 >= st_first(s) && st_last(s) < 4611686018427387904
+//@     && st_snapindex(s) + 1 >= st_first(s)
 //@     && (forall i uint64 :: st_first(s) <= i && i <= st_last(s) ==> allocated(st_ent(s, i)) && eindex(st_ent(s, i)) == i && eterm(st_ent(s, i)) == st_term(s, i))
 //@     && (forall i uint64, j uint64 :: st_first(s) - 1 <= i && i <= j && j <= st_last(s) ==> st_term(s, i) <= st_term(s, j))
 
@@ -305,9 +308,12 @@ package raft
 //@        && (len(result0) <= 1 || sumsize(result0, len(result0)) <= maxSize)
 //@        && (len(result0) == hi - lo || sumsize(result0, len(result0)) + psize(st_ent(self, lo + len(result0))) > maxSize)
 
+//@ -- E-compact (DESIGN §3.4): the storage snapshot covers the compacted prefix (st_snapindex + 1 >= st_first, in wf_storage) and
+//@ -- describes applied, hence committed, state (st_snapindex <= committed, a glue conjunct of wf_raftLog)
 //@ func raft.Storage.Snapshot
 //@   modifies alloc F$raftpb.Snapshot, alloc F$raftpb.SnapshotMetadata, alloc F$raftpb.ConfState, alloc C$uint64, alloc C$bool, alloc E$uint8, alloc E$uint64
-//@   ensures result1 == nil ==> result0 != nil
+//@   ensures result1 == nil || result1 == ErrSnapshotTemporarilyUnavailable
+//@   ensures result1 == nil ==> result0 != nil && fresh(result0) && snapIndex(result0) == st_snapindex(self) && snapTerm(result0) == st_snapterm(self)
 
 //@ -- ------------------------------------------------------------------------------------------
 //@ -- log.go: the combined stable+unstable view of a raftLog (DESIGN §3.1).
@@ -326,6 +332,7 @@ package raft
 //@     && l.applied <= l.applying && l.applying <= l.committed && l.committed <= log_last(l)
 //@     && (l.unstable.snapshot == nil ==> st_first(l.storage) <= l.unstable.offset && l.unstable.offset <= st_last(l.storage) + 1 && st_first(l.storage) <= l.applied + 1)
 //@     && (l.unstable.snapshot == nil && len(l.unstable.entries) == 0 ==> l.unstable.offset == st_last(l.storage) + 1)
+//@     && st_snapindex(l.storage) <= l.committed
 //@     && (l.unstable.snapshot != nil ==> l.unstable.offset == snapIndex(l.unstable.snapshot) + 1 && snapIndex(l.unstable.snapshot) <= l.committed)
 //@     && (len(l.unstable.entries) > 0 && l.unstable.snapshot == nil ==> st_term(l.storage, l.unstable.offset - 1) <= eterm(l.unstable.entries[0]))
 //@     && (len(l.unstable.entries) > 0 && l.unstable.snapshot != nil ==> snapTerm(l.unstable.snapshot) <= eterm(l.unstable.entries[0]))
@@ -625,3 +632,261 @@ package raft
 //@   ensures #cursors-kept [C08 C09] l.applying == old(l.applying) && l.applied == old(l.applied) && l.storage == old(l.storage)
 //@   ensures #commit-monotone [C07] l.committed > old(l.committed)
 //@   ensures #wf wf_raftLog(l)
+
+//@ -- ------------------------------------------------------------------------------------------
+//@ -- raft.go: node state
+
+//@ pred msgs_nonnil(ms []*pb.Message) := forall p int :: ms.off <= p && p < ms.off + len(ms) ==> elem(ms, p) != nil
+//@ pred wf_raft(r *raft) := r != nil && r.raftLog != nil && wf_raftLog(r.raftLog) && wf_readOnly(r.readOnly) && wf_trk(&r.trk)
+//@     && msgs_nonnil(r.pendingReadIndexMessages)
+//@     && r.state <= 3 && r.id != 0 && r.electionTimeout >= 1 && r.heartbeatTimeout >= 1 && r.electionTimeout <= 1073741824
+//@     && r.electionElapsed >= 0 && r.electionElapsed <= 2147483648 && r.heartbeatElapsed >= 0 && r.heartbeatElapsed <= 2147483648
+//@     && msgs_nonnil(r.msgs) && msgs_nonnil(r.msgsAfterAppend) && r.Term < 9223372036854775808
+//@     && (r.msgs.arr != r.msgsAfterAppend.arr || r.msgs.arr == 0) && (r.msgs.arr != r.pendingReadIndexMessages.arr || r.msgs.arr == 0)
+//@     && (r.msgsAfterAppend.arr != r.pendingReadIndexMessages.arr || r.msgsAfterAppend.arr == 0)
+//@     && (r.state == StateLeader ==> r.lead == r.id)
+
+//@ -- C07: the hard state (Term, Vote, commit) moves forward only: two-state invariant proved for every function that can write it
+//@ pred hs_monotone(r *raft) := r.Term >= old(r.Term) && (r.Term == old(r.Term) ==> (r.Vote == old(r.Vote) || old(r.Vote) == 0))
+//@     && r.raftLog.committed >= old(r.raftLog.committed) && r.raftLog == old(r.raftLog)
+
+//@ pred isRespType(t pb.MessageType) := t == pb.MsgAppResp || t == pb.MsgVoteResp || t == pb.MsgPreVoteResp
+//@ pred isVoteType(t pb.MessageType) := t == pb.MsgVote || t == pb.MsgVoteResp || t == pb.MsgPreVote || t == pb.MsgPreVoteResp
+
+//@ func raft.raft.send [C05 C07 C14]
+//@   requires #wf wf_raft(r) && m != nil
+//@   requires #term-set [C14] isVoteType(m.GetType()) ==> m.GetTerm() != 0
+//@   requires #term-unset [C14] !isVoteType(m.GetType()) ==> m.GetTerm() == 0
+//@   requires #not-self [C14] !isRespType(m.GetType()) ==> m.GetTo() != r.id
+//@   frame raft.raft: r
+//@   frame raftpb.Message: m
+//@   ensures #routing-deferred [C05] isRespType(old(m.GetType())) ==> len(r.msgsAfterAppend) == old(len(r.msgsAfterAppend)) + 1
+//@        && r.msgsAfterAppend[old(len(r.msgsAfterAppend))] == m && r.msgs == old(r.msgs)
+//@   ensures #routing-immediate [C05] !isRespType(old(m.GetType())) ==> len(r.msgs) == old(len(r.msgs)) + 1
+//@        && r.msgs[old(len(r.msgs))] == m && r.msgsAfterAppend == old(r.msgsAfterAppend)
+//@   ensures #others-kept [C05] (forall i int, q int :: 0 <= i && i < old(len(r.msgs)) && q == old(r.msgs.off) + i ==> elem(r.msgs, r.msgs.off + i) == old(elem(r.msgs, q)))
+//@        && (forall i int, q int :: 0 <= i && i < old(len(r.msgsAfterAppend)) && q == old(r.msgsAfterAppend.off) + i ==> elem(r.msgsAfterAppend, r.msgsAfterAppend.off + i) == old(elem(r.msgsAfterAppend, q)))
+//@   ensures #term-stamp [C07] m.GetTerm() == (isVoteType(old(m.GetType())) || old(m.GetType()) == pb.MsgProp || old(m.GetType()) == pb.MsgReadIndex ? old(m.GetTerm()) : r.Term)
+//@   ensures #from m.GetFrom() == (old(m.GetFrom()) == 0 ? r.id : old(m.GetFrom())) && m.GetType() == old(m.GetType()) && m.GetTo() == old(m.GetTo())
+//@   ensures #wf wf_raft(r) && hs_monotone(r)
+
+//@ -- ------------------------------------------------------------------------------------------
+//@ -- read_only.go: ReadIndex bookkeeping. View: confirmedReads (number of requests already released), the queue
+//@ -- unconfirmedReads (request i of the queue has position confirmedReads+i+1), acks (highest position acknowledged per voter).
+
+//@ pred opaque wf_readOnly(ro *readOnly) := ro != nil && ro.acks != nil && ro.confirmedReads + len(ro.unconfirmedReads) < 4611686018427387904
+//@     && (forall p int :: ro.unconfirmedReads.off <= p && p < ro.unconfirmedReads.off + len(ro.unconfirmedReads) ==> elem(ro.unconfirmedReads, p) != nil && elem(ro.unconfirmedReads, p).req != nil)
+//@     && (forall id uint64 :: has(ro.acks, id) ==> ro.acks[id] <= ro.confirmedReads + len(ro.unconfirmedReads))
+
+//@ func raft.newReadOnly [C11]
+//@   reveal wf_readOnly
+//@   ensures #fresh fresh(result) && wf_readOnly(result) && result.option == option && result.confirmedReads == 0 && len(result.unconfirmedReads) == 0 && len(result.acks) == 0
+
+//@ func raft.readOnly.AckedIndex [C11 C12]
+//@   reveal wf_readOnly
+//@   pure
+//@   implements quorum.AckedIndexer.AckedIndex
+//@   requires ro != nil
+//@   ensures result1 == has(ro.acks, voterID) && result0 == (has(ro.acks, voterID) ? ro.acks[voterID] : 0)
+
+//@ func raft.readOnly.addRequest [C11]
+//@   reveal wf_readOnly
+//@   requires wf_readOnly(ro) && req != nil
+//@   requires #a-arith ro.confirmedReads + len(ro.unconfirmedReads) + 1 < 4611686018427387904
+//@   frame raft.readOnly: ro
+//@   ensures #queued [C11] len(ro.unconfirmedReads) == old(len(ro.unconfirmedReads)) + 1
+//@        && ro.unconfirmedReads[old(len(ro.unconfirmedReads))].req == req && ro.unconfirmedReads[old(len(ro.unconfirmedReads))].index == commitIndex
+//@        && fresh(ro.unconfirmedReads[old(len(ro.unconfirmedReads))])
+//@   ensures #kept [C11] (forall i int, q int :: 0 <= i && i < old(len(ro.unconfirmedReads)) && q == old(ro.unconfirmedReads.off) + i ==> elem(ro.unconfirmedReads, ro.unconfirmedReads.off + i) == old(elem(ro.unconfirmedReads, q)))
+//@        && ro.confirmedReads == old(ro.confirmedReads) && ro.acks == old(ro.acks) && ro.option == old(ro.option)
+//@   ensures #wf wf_readOnly(ro)
+
+//@ func raft.readOnly.heartbeatCtx [C11]
+//@   reveal wf_readOnly
+//@   requires wf_readOnly(ro)
+//@   ensures #position [C11] (len(ro.unconfirmedReads) == 0 ==> isnil(result))
+//@        && (len(ro.unconfirmedReads) > 0 ==> len(result) == 8 && fresh(result) && le64(result) == ro.confirmedReads + len(ro.unconfirmedReads))
+
+//@ func raft.readOnly.recvAck [C11 C14]
+//@   reveal wf_readOnly
+//@   requires wf_readOnly(ro)
+//@   -- E-readack (DESIGN §3.4): a non-empty context was produced by heartbeatCtx of this leader: 8 bytes, a position not beyond the queue
+//@   requires #ctx [C14] len(ctx) != 0 ==> len(ctx) >= 8 && le64(ctx) <= ro.confirmedReads + len(ro.unconfirmedReads)
+//@   ensures #max [C11] (len(ctx) != 0 ==> has(ro.acks, from) && ro.acks[from] == max(old(has(ro.acks, from)) ? old(ro.acks[from]) : 0, old(le64(ctx))))
+//@        && (len(ctx) == 0 ==> has(ro.acks, from) == old(has(ro.acks, from)) && ro.acks[from] == old(ro.acks[from]))
+//@   ensures #others [C11] forall id uint64 :: id != from ==> has(ro.acks, id) == old(has(ro.acks, id)) && ro.acks[id] == old(ro.acks[id])
+//@   ensures #wf wf_readOnly(ro)
+
+//@ spec roAck(ro *readOnly, id uint64) uint64 := has(ro.acks, id) ? ro.acks[id] : 0
+//@ -- k is the largest read position acknowledged by a majority of every non-empty voter set
+//@ pred roQuorumPos(ro *readOnly, c quorum.JointConfig, k int) :=
+//@     ((len(c[0]) > 0 ==> k == 0 || cnt(c[0], id :: roAck(ro, id) >= k) >= len(c[0]) / 2 + 1) && (len(c[1]) > 0 ==> k == 0 || cnt(c[1], id :: roAck(ro, id) >= k) >= len(c[1]) / 2 + 1)
+//@      && ((len(c[0]) > 0 && cnt(c[0], id :: roAck(ro, id) > k) < len(c[0]) / 2 + 1) || (len(c[1]) > 0 && cnt(c[1], id :: roAck(ro, id) > k) < len(c[1]) / 2 + 1)))
+
+//@ func raft.readOnly.maybeAdvance [C11 C12 C14]
+//@   reveal wf_readOnly
+//@   requires wf_readOnly(ro)
+//@   requires #non-empty-config [C14] len(c[0]) > 0 || len(c[1]) > 0
+//@   frame raft.readOnly: ro
+//@   after quorum.JointConfig.CommittedIndex assume cnt_mono(c[0], id :: ack(asiface(ro, "*raft.readOnly"), id) >= result, id :: roAck(ro, id) >= result)
+//@        && cnt_mono(c[1], id :: ack(asiface(ro, "*raft.readOnly"), id) >= result, id :: roAck(ro, id) >= result)
+//@        && cnt_mono(c[0], id :: roAck(ro, id) > result, id :: ack(asiface(ro, "*raft.readOnly"), id) > result)
+//@        && cnt_mono(c[1], id :: roAck(ro, id) > result, id :: ack(asiface(ro, "*raft.readOnly"), id) > result)
+//@   ensures #release [C11 C12] exists k int :: old(roQuorumPos(ro, c, k)) && ro.confirmedReads == max(old(ro.confirmedReads), k)
+//@        && len(result) == ro.confirmedReads - old(ro.confirmedReads) && len(ro.unconfirmedReads) == old(len(ro.unconfirmedReads)) - len(result)
+//@   ensures #prefix [C11] (len(result) > 0 ==> result.arr == old(ro.unconfirmedReads.arr) && result.off == old(ro.unconfirmedReads.off))
+//@        && (len(result) > 0 ==> ro.unconfirmedReads.arr == old(ro.unconfirmedReads.arr) && ro.unconfirmedReads.off == old(ro.unconfirmedReads.off) + len(result))
+//@        && (len(result) == 0 ==> ro.unconfirmedReads == old(ro.unconfirmedReads))
+//@   ensures #rest ro.acks == old(ro.acks) && ro.option == old(ro.option)
+//@   ensures #wf wf_readOnly(ro)
+
+//@ lemma pay_range(a arr, o int, k int, d arr) [C16 C20]
+//@   requires 0 <= k && (forall e int :: 0 <= d[e] && d[e] <= 2147483648)
+//@   ensures 0 <= sumpayarr(a, o, k, d) && sumpayarr(a, o, k, d) <= k * 2147483648
+//@   decreases k
+//@   use k > 0 ==> pay_range(a, o, k - 1, d)
+
+//@ func raft.payloadSize [C16]
+//@   pure
+//@   ensures result == (e == nil ? 0 : len(e.Data))
+
+//@ func raft.payloadsSize [C16 C20]
+//@   pure
+//@   ensures #sum result == sumpay(ents, len(ents))
+//@   loop 1 invariant #acc 0 <= iter && iter <= len(ents) && s == sumpay(ents, iter)
+
+
+//@ -- ------------------------------------------------------------------------------------------
+//@ -- raft.go leaf functions
+
+//@ pred raft_kept_but_msgs(r *raft) := r.Term == old(r.Term) && r.Vote == old(r.Vote) && r.state == old(r.state) && r.lead == old(r.lead) && r.id == old(r.id)
+//@     && r.raftLog == old(r.raftLog) && r.readOnly == old(r.readOnly) && r.leadTransferee == old(r.leadTransferee) && r.pendingConfIndex == old(r.pendingConfIndex)
+//@     && r.uncommittedSize == old(r.uncommittedSize) && r.electionElapsed == old(r.electionElapsed) && r.heartbeatElapsed == old(r.heartbeatElapsed)
+//@     && r.isLearner == old(r.isLearner) && r.randomizedElectionTimeout == old(r.randomizedElectionTimeout)
+
+//@ func raft.raft.hasLeader
+//@   pure
+//@   requires r != nil
+//@   ensures result <==> r.lead != 0
+
+//@ func raft.raft.hardState [C07]
+//@   requires r != nil && r.raftLog != nil
+//@   ensures #exposes-state [C07] fresh(result) && result.GetTerm() == r.Term && result.GetVote() == r.Vote && result.GetCommit() == r.raftLog.committed
+
+//@ func raft.raft.promotable [C10 C17]
+//@   pure
+//@   reveal wf_trk
+//@   requires wf_raft(r)
+//@   ensures #def result <==> (has(r.trk.Progress, r.id) && !r.trk.Progress[r.id].IsLearner && r.raftLog.unstable.snapshot == nil)
+
+//@ func raft.raft.pastElectionTimeout [C17]
+//@   pure
+//@   requires r != nil
+//@   ensures result <==> r.electionElapsed >= r.randomizedElectionTimeout
+
+//@ -- the one whitelisted source of randomness (C19): the draw is an explicit input of the transition
+//@ func raft.lockedRand.Intn [C19]
+//@   trusted
+//@   requires n > 0
+//@   ensures 0 <= result && result < n
+
+//@ func raft.raft.resetRandomizedElectionTimeout [C19 C17]
+//@   requires r != nil && r.electionTimeout >= 1 && r.electionTimeout <= 1073741824
+//@   frame raft.raft: r
+//@   ensures #range [C19] r.electionTimeout <= r.randomizedElectionTimeout && r.randomizedElectionTimeout < 2 * r.electionTimeout
+//@   ensures #only r.Term == old(r.Term) && r.Vote == old(r.Vote) && r.state == old(r.state) && r.lead == old(r.lead) && r.electionTimeout == old(r.electionTimeout)
+//@        && r.msgs == old(r.msgs) && r.msgsAfterAppend == old(r.msgsAfterAppend) && r.raftLog == old(r.raftLog) && r.electionElapsed == old(r.electionElapsed)
+
+//@ func raft.raft.abortLeaderTransfer
+//@   requires r != nil
+//@   frame raft.raft: r
+//@   ensures r.leadTransferee == 0 && r.Term == old(r.Term) && r.Vote == old(r.Vote) && r.state == old(r.state) && r.lead == old(r.lead)
+//@        && r.msgs == old(r.msgs) && r.msgsAfterAppend == old(r.msgsAfterAppend) && r.raftLog == old(r.raftLog)
+
+//@ func raft.raft.committedEntryInCurrentTerm [C11]
+//@   pure
+//@   requires wf_raft(r)
+//@   reveal wf_raftLog
+//@   ensures #def [C11] result <==> ((log_has(r.raftLog, r.raftLog.committed) ? log_term(r.raftLog, r.raftLog.committed) : 0) == r.Term)
+
+//@ func raft.raft.increaseUncommittedSize [C16 C20]
+//@   requires r != nil
+//@   requires #a-arith-no-wrap r.uncommittedSize + sumpay(ents, len(ents)) < 18446744073709551616
+//@   frame raft.raft: r
+//@   ensures #refuse [C16] !result <==> (old(r.uncommittedSize) > 0 && sumpay(ents, len(ents)) > 0 && old(r.uncommittedSize) + sumpay(ents, len(ents)) > r.maxUncommittedSize)
+//@   ensures #account [C16] (result ==> r.uncommittedSize == old(r.uncommittedSize) + sumpay(ents, len(ents)) || r.uncommittedSize == old(r.uncommittedSize) + sumpay(ents, len(ents)) - 18446744073709551616)
+//@        && (!result ==> r.uncommittedSize == old(r.uncommittedSize))
+//@   ensures #empty-always-accepted [C16 C14] sumpay(ents, len(ents)) == 0 ==> result
+//@   ensures #rest r.Term == old(r.Term) && r.Vote == old(r.Vote) && r.state == old(r.state) && r.lead == old(r.lead) && r.msgs == old(r.msgs)
+//@        && r.msgsAfterAppend == old(r.msgsAfterAppend) && r.raftLog == old(r.raftLog) && r.maxUncommittedSize == old(r.maxUncommittedSize)
+
+//@ func raft.raft.reduceUncommittedSize [C16]
+//@   requires r != nil
+//@   frame raft.raft: r
+//@   ensures #saturating [C16] r.uncommittedSize == (s > old(r.uncommittedSize) ? 0 : old(r.uncommittedSize) - s)
+//@   ensures #rest r.Term == old(r.Term) && r.Vote == old(r.Vote) && r.state == old(r.state) && r.lead == old(r.lead) && r.msgs == old(r.msgs)
+//@        && r.msgsAfterAppend == old(r.msgsAfterAppend) && r.raftLog == old(r.raftLog)
+
+//@ func raft.voteRespMsgType [C14 C02]
+//@   pure
+//@   requires #vote-type [C14] msgt == pb.MsgVote || msgt == pb.MsgPreVote
+//@   ensures result == (msgt == pb.MsgVote ? pb.MsgVoteResp : pb.MsgPreVoteResp)
+
+//@ func raft.raft.loadState [C07 C14]
+//@   requires wf_raft(r) && state != nil
+//@   reveal wf_raftLog
+//@   requires #range [C14 C07] state.GetCommit() >= r.raftLog.committed && state.GetCommit() <= log_last(r.raftLog) && state.GetTerm() < 9223372036854775808
+//@   frame raft.raft: r
+//@   frame raft.raftLog: r.raftLog
+//@   ensures #restored [C07 C02] r.Term == old(state.GetTerm()) && r.Vote == old(state.GetVote()) && r.raftLog.committed == old(state.GetCommit())
+//@   ensures #wf wf_raft(r) && r.raftLog == old(r.raftLog)
+
+//@ func raft.raft.maybeCommit [C06 C04 C07]
+//@   requires wf_raft(r)
+//@   reveal wf_trk
+//@   frame raft.raftLog: r.raftLog
+//@   ensures #quorum-own-term [C06 C04] result ==> jointCommittedByMatch(&r.trk, r.raftLog.committed) && log_has(r.raftLog, r.raftLog.committed)
+//@        && log_term(r.raftLog, r.raftLog.committed) == r.Term && r.raftLog.committed > old(r.raftLog.committed) && r.Term != 0
+//@   ensures #unchanged [C06] !result ==> r.raftLog.committed == old(r.raftLog.committed)
+//@   ensures #rest raft_kept_but_msgs(r) && r.msgs == old(r.msgs) && r.msgsAfterAppend == old(r.msgsAfterAppend)
+//@   ensures #wf wf_raft(r) && hs_monotone(r)
+
+//@ func raft.raft.sendHeartbeat [C06 C14]
+//@   requires wf_raft(r) && r.state == StateLeader
+//@   requires #peer [C14] has(r.trk.Progress, to) && to != r.id
+//@   reveal wf_trk
+//@   ensures #commit-clamp [C06] len(r.msgs) == old(len(r.msgs)) + 1 && r.msgs[old(len(r.msgs))].GetType() == pb.MsgHeartbeat && r.msgs[old(len(r.msgs))].GetTo() == to
+//@        && r.msgs[old(len(r.msgs))].GetCommit() == min(old(r.trk.Progress[to].Match), r.raftLog.committed) && r.msgs[old(len(r.msgs))].GetTerm() == r.Term
+//@   ensures #deferred-untouched [C05] r.msgsAfterAppend == old(r.msgsAfterAppend)
+//@   ensures #rest raft_kept_but_msgs(r) && r.raftLog.committed == old(r.raftLog.committed)
+//@   ensures #wf wf_raft(r) && hs_monotone(r)
+
+
+//@ func raft.raftLog.snapshot [C09]
+//@   reveal wf_raftLog, wf_unstable, wf_storage
+//@   requires wf_raftLog(l)
+//@   ensures #errors result1 == nil || result1 == ErrSnapshotTemporarilyUnavailable
+//@   ensures #committed-prefix [C09] result1 == nil ==> result0 != nil && fresh(result0) && snapIndex(result0) <= l.committed && snapIndex(result0) + 1 >= log_first(l)
+//@        && snapIndex(result0) < 9223372036854775808
+//@   ensures #wf wf_raftLog(l)
+
+//@ -- leader-side relation between progress records and the log: nothing is tracked beyond the leader's own log
+//@ pred progress_in_log(r *raft, pr *tracker.Progress) := pr.Match <= log_last(r.raftLog) && pr.Next <= log_last(r.raftLog) + 1 && pr.Next >= 1
+//@ spec lastMsg(r *raft) *pb.Message := r.msgs[len(r.msgs) - 1]
+
+//@ func raft.raft.maybeSendSnapshot [C09 C16 C14]
+//@   requires wf_raft(r) && r.state == StateLeader
+//@   requires #peer has(r.trk.Progress, to) && r.trk.Progress[to] == pr && to != r.id
+//@   requires #behind-compaction [C14] pr.Match + 1 < log_first(r.raftLog)
+//@   reveal wf_trk, wf_raftLog
+//@   frame tracker.Progress: pr
+//@   frame tracker.Inflights: pr.Inflights
+//@   ensures #inactive-noop [C09] !old(pr.RecentActive) ==> !result && r.msgs == old(r.msgs) && pr.State == old(pr.State) && pr.Next == old(pr.Next) && pr.PendingSnapshot == old(pr.PendingSnapshot)
+//@   ensures #sent [C09 C16] result ==> pr.State == tracker.StateSnapshot && len(r.msgs) == old(len(r.msgs)) + 1 && lastMsg(r).GetType() == pb.MsgSnap && lastMsg(r).GetTo() == to
+//@        && lastMsg(r).Snapshot != nil && pr.PendingSnapshot == snapIndex(lastMsg(r).Snapshot) && pr.Next == pr.PendingSnapshot + 1
+//@        && snapIndex(lastMsg(r).Snapshot) <= r.raftLog.committed && lastMsg(r).GetTerm() == r.Term
+//@   ensures #not-sent !result ==> r.msgs == old(r.msgs) && pr.State == old(pr.State) && pr.Next == old(pr.Next)
+//@   ensures #match-kept [C06] pr.Match == old(pr.Match)
+//@   ensures #deferred-untouched [C05] r.msgsAfterAppend == old(r.msgsAfterAppend)
+//@   ensures #rest raft_kept_but_msgs(r) && r.raftLog.committed == old(r.raftLog.committed)
+//@   ensures #wf wf_raft(r) && hs_monotone(r)
